@@ -105,6 +105,9 @@ class DiGraph:
             dtype = None
         else:
             dtype = bool
+        if not sparse.issparse(adj_matrix):
+            # A tuple would be read by csr_matrix as (data, indices, indptr)
+            adj_matrix = np.asarray(adj_matrix)
         self.csgraph = sparse.csr_matrix(adj_matrix, dtype=dtype)
         if np.any(self.csgraph.data == 0):
             # Explicitly stored zeros of a sparse input are not edges
@@ -356,7 +359,7 @@ class DiGraph:
         weighted = True  # To copy the dtype
 
         if self.node_labels is not None:
-            node_labels = self.node_labels[nodes]
+            node_labels = self.node_labels[np.asarray(nodes)]
         else:
             node_labels = None
 
